@@ -83,10 +83,10 @@ def check(prog, ctx):
     ctx.rule('C20.d', 'writer and reader agree: Export_Table streams In_Units(data[l][c], dim(c)) as a double, Import_Table returns token*dim(j) with the same '
              'column<->unit map (1 when no units are given); Export_List/Import_List likewise; one header line iff the header is non-empty; the reader skips '
              'exactly ignored_initial_lines lines; Export_Function is Export_Table of {x, f(x)} rows', 6)
-    units(prog, ctx)
-    startup(prog, ctx)
-    in_units(prog, ctx)
-    io(prog, ctx)
+    ctx.sub('units', units, prog, ctx)
+    ctx.sub('startup', startup, prog, ctx)
+    ctx.sub('in_units', in_units, prog, ctx)
+    ctx.sub('io', io, prog, ctx)
 
 
 def units(prog, ctx):
@@ -500,6 +500,27 @@ def io(prog, ctx):
     if not cols or show(cols[0]['init']).replace(' ', '') != 'data_aux.size()/rows':
         probs.append('column count is %s' % (show(cols[0]['init']) if cols else None))
     ctx.decide(R, 'Import_Table', it, not probs and okv, 'returns token*dim(j) with dim(j)=dimensions[j] or 1; rows = lines - skipped; columns = tokens/rows', '; '.join(probs))
+    # the row count of the reader: Count_Lines counts every line that getline delivers (the writer emits exactly one per row)
+    cl_ = prog.fn(L + 'Count_Lines')
+    gl = [s_ for s_ in walk_stmts(cl_.body) if s_['k'] in ('While', 'For', 'Do') and s_.get('cond') is not None and
+          any(n_.get('k') == 'Call' and (n_.get('callee') or {}).get('name') == 'getline' for n_ in walk_expr(s_['cond']))]
+    okc = False
+    detail = 'no getline loop found'
+    if len(gl) == 1:
+        rets_ = [s_ for s_ in walk_stmts(cl_.body) if s_['k'] == 'Return' and s_.get('e') is not None]
+        cid = strip_casts(rets_[-1]['e']).get('id') if rets_ else None
+        incs = []
+        for s_ in walk_stmts(gl[0]['body']):
+            for e_ in stmt_exprs(s_):
+                for n_ in walk_expr(e_):
+                    if (n_.get('k') == 'Un' and n_.get('op') == '++' and strip(n_['e']).get('id') == cid) or \
+                            (n_.get('k') == 'Bin' and n_.get('op') == '+=' and strip(n_['lhs']).get('id') == cid and strip_casts(n_['rhs']).get('v') == '1'):
+                        incs.append(s_)
+        cond_stmts = [s_ for s_ in walk_stmts(gl[0]['body']) if s_['k'] in ('If', 'Switch', 'For', 'While', 'Do')]
+        okc = cid is not None and len(incs) == 1 and not cond_stmts and all(strip_casts(r_['e']).get('id') == cid for r_ in rets_)
+        detail = 'counter increments: %d, conditional statements in the loop body: %d' % (len(incs), len(cond_stmts))
+    ctx.decide(R, 'Count_Lines', cl_, okc, 'every line delivered by getline is counted once, unconditionally',
+               'Count_Lines does not count every line (%s): the row count of Import_Table disagrees with the lines written by Export_Table' % detail)
     el = prog.fn(L + 'Export_List')
     ps = [p['name'] for p in el.params]
     streams = [d['name'] for d in local_decls(el) if 'ofstream' in d['ty']]
